@@ -90,6 +90,11 @@ func (r *nodeReconcile) Reconcile(ctx context.Context, request reconcile.Request
 		}
 	case "ipv6":
 		ipv6 = true
+		if node.Spec.NodeCap.IPv6PerAdapter != node.Spec.NodeCap.IPv4PerAdapter {
+			l.Info("unsupported ipv6 stack instance")
+			r.record.Eventf(node, "Warning", types.EventConfigError, "Instance not support ipv6 stack. ipv4 and ipv6 count is not equal.")
+			return reconcile.Result{}, fmt.Errorf("instance type does not support ip stack %s", eniConfig.IPStack)
+		}
 	default:
 		return reconcile.Result{}, fmt.Errorf("unsupported ip stack %s", eniConfig.IPStack)
 	}
